@@ -25,6 +25,21 @@ Theorem C04_restore_authentic : forall m st target out,
 Proof. exact (fun m st target out => restore_authentic src_facts m st target out eq_refl eq_refl). Qed.
 Print Assumptions C04_restore_authentic.
 
+(* the same when the listing and the store disagree (objects changed or removed after the listing) *)
+Theorem C04_restore_listed_authentic : forall m listing st target out,
+  restore_listed src_facts m listing st target = Ok out ->
+  forall x, In x out -> exists a, authentic m target = Some a /\ In x a.
+Proof. exact (fun m listing st target out => restore_listed_authentic src_facts m listing st target out eq_refl eq_refl). Qed.
+Print Assumptions C04_restore_listed_authentic.
+
+(* a snapshot that was listed and is gone when it is downloaded fails the restore - it is not skipped *)
+Theorem C04_vanished_snapshot_fails : forall m listing st name tag,
+  In (name, tag) listing -> lookup st (LSnap name tag) = None ->
+  (match m with Some k => tag = Mac (k_mac k) name | None => True end) ->
+  exists e, restore_listed src_facts m listing st name = Err e.
+Proof. exact (restore_listed_vanished_fails src_facts). Qed.
+Print Assumptions C04_vanished_snapshot_fails.
+
 (* hence two stores (the honest one and any damaged one) cannot both succeed with different files *)
 Theorem C04_restore_store_independent : forall m st1 st2 target out1 out2,
   restore src_facts m st1 target = Ok out1 -> restore src_facts m st2 target = Ok out2 ->
